@@ -304,6 +304,13 @@ impl Local {
         self.bulk_distinct += nontrivial_distinct;
         *self.hist.entry(outcome).or_insert(0) += evaluations;
     }
+    /// Fold a caller-computed outcome digest of a bulk case into the sub-run digest (two-build comparison).
+    pub fn add_digest(&mut self, d: u64) {
+        self.digest = self.digest.wrapping_add(hash64(&(self.idx, d)));
+    }
+    pub fn violations_len(&self) -> usize {
+        self.violations.len()
+    }
     pub fn count(&mut self, key: &'static str, n: u64) {
         *self.extra.entry(key).or_insert(0) += n;
     }
